@@ -89,7 +89,12 @@ inductive RErr where
   | type               -- raw `TypeError` out of `get_dotted_key`
   deriving Repr, DecidableEq, Inhabited
 
-def splitKey (k : String) : List String := k.splitOn "."
+/-- `str.split('.')`, structurally (so that the kernel can evaluate it) -/
+def splitDots : List Char → List Char → List String
+  | acc, [] => [String.ofList acc.reverse]
+  | acc, c :: cs => if c = '.' then String.ofList acc.reverse :: splitDots [] cs else splitDots (c :: acc) cs
+
+def splitKey (k : String) : List String := splitDots [] k.toList
 
 /-- `get_dotted_key(k, o)` for a dotted key string -/
 def getDotted (k : String) (o : V) : Lk V := walk (splitKey k) o
